@@ -1,0 +1,109 @@
+//go:build verif
+
+package verifhook
+
+import (
+	"encoding/json"
+
+	"github.com/aml-org/amf-custom-validator/internal/parser"
+	"github.com/aml-org/amf-custom-validator/internal/parser/profile"
+)
+
+// DumpProfile parses a profile and renders the parsed rule trees as canonical JSON (structure, negation
+// flags, variables, paths, arguments) WITHOUT calling String() on any rule (String() sorts bodies in place).
+func DumpProfile(profileText string) (string, error) {
+	p, err := parser.Parse(profileText)
+	if err != nil {
+		return "", err
+	}
+	dumpAll := func(rs []profile.Rule) []any {
+		acc := []any{}
+		for _, r := range rs {
+			acc = append(acc, dumpRule(r))
+		}
+		return acc
+	}
+	prefixes := map[string]any{}
+	for k, v := range p.Prefixes {
+		prefixes[k] = v
+	}
+	out := map[string]any{
+		"name":      p.Name,
+		"prefixes":  prefixes,
+		"violation": dumpAll(p.Violation),
+		"warning":   dumpAll(p.Warning),
+		"info":      dumpAll(p.Info),
+	}
+	if p.CustomRego != nil {
+		out["customRego"] = *p.CustomRego
+	}
+	b, err := json.Marshal(out)
+	return string(b), err
+}
+
+func dumpVar(v profile.Variable) map[string]any {
+	m := map[string]any{"name": v.Name, "quant": "forall"}
+	if v.Quantification == profile.Exists {
+		m["quant"] = "exists"
+	}
+	if v.Cardinality != nil {
+		m["card"] = map[string]any{"op": v.Cardinality.Operator.String(), "value": v.Cardinality.Value}
+	}
+	return m
+}
+
+func dumpBody(rs profile.RuleSlice) []any {
+	acc := []any{}
+	for _, r := range rs {
+		acc = append(acc, dumpRule(r))
+	}
+	return acc
+}
+
+func dumpRule(r profile.Rule) map[string]any {
+	switch e := r.(type) {
+	case profile.TopLevelExpression:
+		vars := e.Message.Variables
+		if vars == nil {
+			vars = []string{}
+		}
+		return map[string]any{"t": "top", "name": e.Name, "level": e.Level, "class": e.ClassGenerator, "var": dumpVar(*e.Variable),
+			"neg": e.Negated, "msgExpr": e.Message.Expression, "msgVars": vars, "value": dumpRule(e.Value)}
+	case profile.AndRule:
+		return map[string]any{"t": "and", "neg": e.Negated, "body": dumpBody(e.Body)}
+	case profile.OrRule:
+		return map[string]any{"t": "or", "neg": e.Negated, "body": dumpBody(e.Body)}
+	case profile.ConditionalRule:
+		return map[string]any{"t": "cond", "neg": e.Negated, "body": dumpBody(e.Body)}
+	case profile.NestedExpression:
+		return map[string]any{"t": "nested", "neg": e.Negated, "parent": e.Parent.Name, "child": dumpVar(e.Child), "path": DumpPath(e.Path),
+			"source": e.Path.Source(), "value": dumpRule(e.Value)}
+	case profile.CountRule:
+		return map[string]any{"t": "count", "neg": e.Negated, "name": e.Name, "var": e.Variable.Name, "path": DumpPath(e.Path), "source": e.Path.Source(),
+			"arg": e.Argument, "qualifier": int(e.Qualifier), "target": int(e.Target)}
+	case profile.ScalarSetRule:
+		args := e.Argument
+		if args == nil {
+			args = []string{}
+		}
+		return map[string]any{"t": "set", "neg": e.Negated, "name": e.Name, "var": e.Variable.Name, "path": DumpPath(e.Path), "source": e.Path.Source(),
+			"args": args, "criteria": int(e.SetCriteria)}
+	case profile.PatternRule:
+		return map[string]any{"t": "pattern", "neg": e.Negated, "name": e.Name, "var": e.Variable.Name, "path": DumpPath(e.Path), "source": e.Path.Source(), "arg": e.Argument}
+	case profile.UniqueValuesRule:
+		return map[string]any{"t": "unique", "neg": e.Negated, "name": e.Name, "var": e.Variable.Name, "path": DumpPath(e.Path), "source": e.Path.Source(), "arg": e.Argument}
+	case profile.PropertyComparisonRule:
+		return map[string]any{"t": "propcmp", "neg": e.Negated, "name": e.Name, "var": e.Variable.Name, "path": DumpPath(e.Path), "source": e.Path.Source(),
+			"op": e.Operator.String(), "other": DumpPath(e.Argument), "otherSource": e.Argument.Source()}
+	case profile.NumericRule:
+		return map[string]any{"t": "numeric", "neg": e.Negated, "name": e.Name, "var": e.Variable.Name, "path": DumpPath(e.Path), "source": e.Path.Source(),
+			"op": e.Operation.String(), "arg": e.StringArgument()}
+	case profile.DatatypeRule:
+		return map[string]any{"t": "datatype", "neg": e.Negated, "name": e.Name, "var": e.Variable.Name, "path": DumpPath(e.Path), "source": e.Path.Source(), "arg": e.Argument}
+	case profile.RegoRule:
+		return map[string]any{"t": "rego", "neg": e.Negated, "name": e.Name, "var": e.Variable.Name, "path": DumpPath(e.Path), "source": e.Path.Source(),
+			"message": e.Message, "code": e.Argument}
+	default:
+		return map[string]any{"t": "unknown"}
+	}
+}
